@@ -84,6 +84,7 @@ struct Config {
     std::string ca_file;         // server: DN for the CertificateRequest (default ca_rsa.pem)
     Session resume;              // client: offer this session id; server: accept it when the client offers it
     bool offer_ticket_ext = false; // client: send an empty session_ticket extension
+    Bytes client_ticket;           // client: with offer_ticket_ext, put these bytes into the extension (a ticket the server never issued)
     bool ack_ticket_ext = false;   // server: acknowledge session_ticket (then NewSessionTicket is a legal message)
     bool server_empty_session_id = false; // server: ServerHello carries an empty session id (not resumable by id; RFC 5077 ticket-only servers do this)
     Bytes master_override;         // 48 bytes: use this master secret wherever the puppet would take the resumed session's secret (or, lacking any key exchange,
